@@ -73,6 +73,12 @@ theorem C_exec_mono1 (f : Nat) :
       | write e => intro _; rw [C.exec, C.exec]
       | sleep e => intro _; rw [C.exec, C.exec]
       | brk => intro _; rw [C.exec, C.exec]
+      | call x g ps ls rt body ret args =>
+        rw [C.exec, C.exec]
+        refine bind_stable_l ?_
+        intro vs _
+        refine bind_stable (ihe _ body _ m) ?_
+        intro st1 _ _; rfl
     · intro te i n b st m
       rw [C.exec.forLoop, C.exec.forLoop]
       refine bind_stable_l ?_
